@@ -10,6 +10,8 @@ import (
 	"go/parser"
 	"go/token"
 	"go/types"
+	"os"
+	"path/filepath"
 	"sync"
 
 	"github.com/go-critic/go-critic/linter"
@@ -46,6 +48,18 @@ type Linted struct {
 
 // Load parses and type-checks src (package name taken from the source).
 func Load(filename, src string) (*Linted, error) {
+	// the ruleguard engine reads the file from disk to render `$var` texts (and cannot print a variadic
+	// match without it): the analysed source is always materialised
+	if !filepath.IsAbs(filename) {
+		dir := filepath.Join(os.TempDir(), fmt.Sprintf("vh-lint-%d", os.Getpid()))
+		if err := os.MkdirAll(dir, 0o755); err != nil {
+			return nil, err
+		}
+		filename = filepath.Join(dir, filename)
+	}
+	if err := os.WriteFile(filename, []byte(src), 0o644); err != nil {
+		return nil, err
+	}
 	fset := token.NewFileSet()
 	f, err := parser.ParseFile(fset, filename, src, parser.ParseComments)
 	if err != nil {
